@@ -282,6 +282,32 @@ pub fn run(cfg: &Cfg) -> Report {
         st
     });
     stats.merge(body_stats);
+    // scaling families: long token sequences, every gap taking its own separator from the full menu
+    {
+        let cycle: Vec<&'static str> = vec!["a", "+", "1", "*", "(", "b2", "-", "2.5", ")", ",", "\"/*\"", ";", "!", "true", "&&", "a", "<=", "1", "^", "-", "1"];
+        let mut st = Stats::new();
+        for n in super::scale::sizes(cfg.tier == Tier::Thorough) {
+            for off in [0usize, 5, 11] {
+                let toks: Vec<&'static str> = (0..n).map(|i| cycle[(i + off) % cycle.len()]).collect();
+                let base_src = toks.join(" ");
+                let intended = match lex(&base_src) {
+                    Ok(t) => t,
+                    Err(_) => continue,
+                };
+                let base_res = match parse(&base_src) {
+                    Ok(r) => r,
+                    Err(_) => continue,
+                };
+                let b = Base { toks: toks.clone(), intended, base_src, base_res };
+                for shift in 0..full.len() {
+                    let seps: Vec<&str> = (0..=n).map(|g| full[(g * 7 + shift) % full.len()].as_str()).collect();
+                    compare(&b, &seps, &mut st);
+                }
+                st.count("scaling-family-sequences");
+            }
+        }
+        stats.merge(st);
+    }
     for (toks, seps) in [
         (vec!["a", "b2"], vec!["", "/**/", ""]),
         (vec!["1", "<", "=", "2.5"], vec!["", " ", "/**/", "\u{2003}", ""]),
@@ -300,7 +326,7 @@ pub fn run(cfg: &Cfg) -> Report {
     Report {
         property: ID,
         level: "exploration",
-        rule: format!("every token sequence of length <= {max_len} over a {a}-token alphabet (words, strings containing comment markers, every operator and punctuation token), well-formed or not; per sequence: each gap (incl. before the first and after the last token) takes each of {} separators (the 25 White_Space code points, block and line comments, mixtures, the empty separator) while the other gaps cycle through a core menu, plus all gaps jointly over the {core_n}-entry core menu for sequences of length <= {joint_upto}; a rendering is compared only if the reference lexer still reads the intended token sequence (so fusing renderings are skipped); plus 4 unterminated-comment tails per sequence; plus every comment body up to 4 (quick) / 6 (thorough) characters over `* / a space newline \" = é 😀` as a block and as a line comment at every gap of 5 fixed sequences. Non-trivial = sequences of >= 2 tokens; distinct by token sequence", full.len()),
+        rule: format!("every token sequence of length <= {max_len} over a {a}-token alphabet (words, strings containing comment markers, every operator and punctuation token), well-formed or not; per sequence: each gap (incl. before the first and after the last token) takes each of {} separators (the 25 White_Space code points, block and line comments, mixtures, the empty separator) while the other gaps cycle through a core menu, plus all gaps jointly over the {core_n}-entry core menu for sequences of length <= {joint_upto}; a rendering is compared only if the reference lexer still reads the intended token sequence (so fusing renderings are skipped); plus 4 unterminated-comment tails per sequence; plus every comment body up to 4 (quick) / 6 (thorough) characters over `* / a space newline \" = é 😀` as a block and as a line comment at every gap of 5 fixed sequences; plus scaling families: token sequences of n tokens (n in 1..20 and up to 129 / 1..40 and up to 400) in which every gap takes its own separator from the full menu, in as many rotations as the menu has entries. Non-trivial = sequences of >= 2 tokens; distinct by token sequence", full.len()),
         nontrivial_set: "nontrivial",
         exhaustive: true,
         bound_completed: format!("token sequences of length {max_len}"),
